@@ -42,7 +42,8 @@ holes of templates with other delimiters (`{% %}`, `{# #}`) or with shows that a
 identifier, the URL flag at later holes, the `type` attribute of script/style (hence the JSON
 context), Markdown files. The full statement
 without the class restriction is refuted (`script_ctx_agree_false`: a quote in a regex literal, a
-quote in a template literal, a string ending in an escaped backslash). The documents outside `D`
+quote in a template literal; a string ending in an escaped backslash was the third witness until the
+lexer was repaired, 8287339 — such strings are inside `D` now). The documents outside `D`
 on which the lexer's context is wrong are recorded as known findings and replayed by the harness. -/
 namespace ScriggoV.Props.C06
 open ScriggoV ScriggoV.Slots ScriggoV.Escape ScriggoV.Dispatch ScriggoV.Gen.ShowDispatch
@@ -202,13 +203,15 @@ every check; each is the hand-written case function of `Model/LexCtx.lean`, the 
 above are about. (2) The model against the reference: `js_comment_agree`. (3) The reference against
 the grammar: `js_block_comment_spec`, `js_line_comment_spec`. -/
 
-/-- `case ast.ContextJS:` of lexer.scan — end tag, line comment up to LF / CR, block comment up to
+/-- `case ast.ContextJS:` of lexer.scan — end tag, line comment up to LF / CR / U+2028 / U+2029 (the
+three bytes E2 80 A8|A9 looked at from the first; repair b0a8648), block comment up to
 `*/` (both bytes consumed), the openers `//` and `/*` (BOTH bytes consumed), quotes — is `caseJSP`. -/
 theorem lexer_js_case_regenerated (text : Bytes) (s : LexCtx.CSt) (c : UInt8) :
     Gen.LexCtxCases.caseJS text s c = LexCtx.caseJSP text s c := rfl
 
 /-- `case ast.ContextJSString:` / `case ast.ContextJSONString:` — escape (a backslash takes the next
-byte with it only when that byte is the quote), closing quote, end tag — are `caseJSStringP`. -/
+byte with it when that byte is the quote or a backslash — repair 8287339; before, only the quote, so that
+`"C:\\"` never ended), closing quote, end tag — are `caseJSStringP`. -/
 theorem lexer_jsstring_case_regenerated (text : Bytes) (s : LexCtx.CSt) (c : UInt8) :
     Gen.LexCtxCases.caseJSString text s c = LexCtx.caseJSStringP text s c Gen.LexTables.ContextJS s.quote ∧
     Gen.LexCtxCases.caseJSONString text s c = LexCtx.caseJSStringP text s c Gen.LexTables.ContextJSON 0x22 :=
@@ -250,7 +253,8 @@ example : HtmlTok.inBlock ([0x2F, 0x2A, 0x2F].foldl HtmlTok.jsStep (.code true))
 example : HtmlTok.noClose [0x2F, 0x20, 0x64, 0x6F, 0x6E, 0x27, 0x74, 0x20, 0x2F, 0x2A] = true := by decide
 
 /-- **Line comment = `//` up to LF or CR** (reference side; the byte 0xE2, which starts U+2028 /
-U+2029, is outside class `D`: known finding js-line-comment-ls-ps) -/
+U+2029, is outside class `D`: the reference does not model the three-byte terminators — the lexer
+does since b0a8648, former finding js-line-comment-ls-ps, `lexer_js_case_regenerated`) -/
 theorem js_line_comment_spec (ro : Bool) (l : Bytes) (h : ∀ c ∈ l, c ≠ 10 ∧ c ≠ 13 ∧ c ≠ 0xE2) :
     [0x2F, 0x2F].foldl HtmlTok.jsStep (.code ro) = .lineC ∧ l.foldl HtmlTok.jsStep .lineC = .lineC ∧
     HtmlTok.jsStep .lineC 10 = .code true ∧ HtmlTok.jsStep .lineC 13 = .code true :=
@@ -418,8 +422,8 @@ starts inside `p`, and let the reference HTML tokenizer (`Spec/HtmlTok.lean`), a
 be in a state for which the abstraction makes a claim `(c, u)` — in particular `p ∈ D`
 (`HtmlTok.run p ≠ bad`: no comments / CDATA / DOCTYPE, no RCDATA or other raw-text elements,
 well-formed tag and attribute names, no `type` attribute on script/style, script content without
-template literals, regular-expression literals, strings ending in an escaped backslash or holding
-a raw newline, style content without quotes in comments, end tags exactly `</script>` /
+template literals, regular-expression literals, strings holding a raw newline, the byte 0xE2 in a
+line comment, style content without quotes in comments, end tags exactly `</script>` /
 `</style>`). Then the full lexer model (`Model/Lexer`, C04/C21) scans the template without a
 fault, the tokens before the first `{{` token are Text / StartURL / EndURL only, that `{{` token
 is at offset `|p|` and carries the context `c`, and it is inside a URL (an open StartURL) exactly
@@ -491,7 +495,8 @@ theorem ctx_agree_all_partial (U : Lexer.Unicode) (hU : LexCtx.AsciiU U) (text :
   LexCtx.all_shows_ctx U hU text hT
 
 /-- Lexing a show statement `{{ … }}` changes none of the fields that decide contexts (`ctx`,
-`contexts`, `tagName`, `tagAttr`, `tagIndex`, `tagCtx`), whatever the show contains — the fact
+`contexts`, `tagName`, `tagAttr`, `tagIndex`, `tagCtx`, and the base context `l.base`), whatever the
+show contains — the fact
 behind `ctx_agree_all_partial` that does not depend on the shape of the show. -/
 theorem show_preserves_context (E : Lexer.Env) (st st' : Lexer.St) (e : Option Lexer.LexErr)
     (h : Lexer.lexShow E st = .ok (st', e)) : Lexer.SameCtx st st' :=
